@@ -9,7 +9,7 @@ nw=${2:-4}
 snap=/tmp/vsnap.$$
 mkdir -p $snap
 cp -r /verif/bin /verif/contracts /verif/prelude /verif/replay_tmpl /verif/bounded /verif/known_findings.json /verif/properties.jsonl $snap/
-ids=$(ls /verif/seeded)
+ids=$(ls -d /verif/seeded/*/ | xargs -n1 basename)
 k=0
 pids=""
 while [ $k -lt $nw ]; do
